@@ -140,15 +140,15 @@ def input_name_problems(digest_arg):
     """Problems with `name=key` of the inputs inside the hashed text; None when the binding is not recognised.
     The name must be the input's declared name with exactly the own namespace prefix (`<ns>::`) removed - nothing
     more (whole namespace path, first segment only) and nothing textual (replace anywhere in the name)."""
-    from ..terms import assume
+    from ..terms import assume, factor_cond
     maps = []
     for x in dag_nodes(digest_arg):
         if x[0] == 'join':
             m = x[2]
             while m[0] == 'sorted':
                 m = m[1]
-            if m[0] == 'map' and len(m[1]) == 2 and m[2][0] == 'cat':
-                maps.append(m)
+            if m[0] == 'map' and len(m[1]) == 2 and factor_cond(m[2])[0] == 'cat':
+                maps.append(m[:2] + (factor_cond(m[2]),) + m[3:])
     if not maps:
         return None
     problems = []
